@@ -26,6 +26,7 @@ import Desync.Model.Http
 import Driver.SparseAccept
 import Driver.IStore
 import Driver.ChainAccept
+import Driver.PoolAccept
 
 namespace Driver
 open Desync
@@ -623,6 +624,7 @@ def runLine (l : String) : String :=
     | "dedup.accept" => cmdDedupAccept a
     | "failover.accept" => ChainAccept.cmdFailoverAccept a
     | "swap.accept" => ChainAccept.cmdSwapAccept a
+    | "pool.accept" => PoolAccept.cmd a
     | "store.name" => cmdStoreName a
     | "prune.classify" => cmdPruneClassify a
     | "prune.run" => cmdPruneRun a
